@@ -14,22 +14,30 @@ class STLExplainer(LTLExplainer, StlAstVisitor):
         return StlAstVisitor.visit(self, element, args)
 
 
-    def explain(self, spec):
+    def explain(self, spec, to_samples=None):
+        # to_samples: maps a bounded node to its bounds in samples (the interpreter's time_unit_transformer);
+        # without it the bounds are taken as written, which is right only for unit-less bounds and period 1
         self.spec = spec
+        self.to_samples = to_samples
         self.explanations = Explanations()
         for spec in self.spec.specs:
             top_signal = self.spec.results[spec]
             if top_signal[0] < 0:
                 self.visit(spec, [[[0,0]], False])
 
+    def bounds(self, element):
+        if getattr(self, 'to_samples', None) is not None:
+            return self.to_samples(element)
+        return element.begin, element.end
+
     def visitTimedEventually(self, element, args):
         intervals = args[0]
         flag = args[1]
         op_signal = self.spec.results[element.children[0]]
         if flag:
-            op_intervals = explain_sat_timed_eventually(op_signal, intervals, element.begin, element.end)
+            op_intervals = explain_sat_timed_eventually(op_signal, intervals, *self.bounds(element))
         else:
-            op_intervals = explain_unsat_timed_eventually(op_signal, intervals, element.begin, element.end)
+            op_intervals = explain_unsat_timed_eventually(op_signal, intervals, *self.bounds(element))
         self.explanations[element.name] = intervals
         self.visit(element.children[0], [op_intervals, flag])
 
@@ -38,9 +46,9 @@ class STLExplainer(LTLExplainer, StlAstVisitor):
         flag = args[1]
         op_signal = self.spec.results[element.children[0]]
         if flag:
-            op_intervals = explain_sat_timed_always(op_signal, intervals, element.begin, element.end)
+            op_intervals = explain_sat_timed_always(op_signal, intervals, *self.bounds(element))
         else:
-            op_intervals = explain_unsat_timed_always(op_signal, intervals, element.begin, element.end)
+            op_intervals = explain_unsat_timed_always(op_signal, intervals, *self.bounds(element))
         self.explanations[element.name] = intervals
         self.visit(element.children[0], [op_intervals, flag])
 
@@ -52,9 +60,9 @@ class STLExplainer(LTLExplainer, StlAstVisitor):
         flag = args[1]
         op_signal = self.spec.results[element.children[0]]
         if flag:
-            op_intervals = explain_sat_timed_once(op_signal, intervals, element.begin, element.end)
+            op_intervals = explain_sat_timed_once(op_signal, intervals, *self.bounds(element))
         else:
-            op_intervals = explain_unsat_timed_once(op_signal, intervals, element.begin, element.end)
+            op_intervals = explain_unsat_timed_once(op_signal, intervals, *self.bounds(element))
         self.explanations[element.name] = intervals
         self.visit(element.children[0], [op_intervals, flag])
 
@@ -63,9 +71,9 @@ class STLExplainer(LTLExplainer, StlAstVisitor):
         flag = args[1]
         op_signal = self.spec.results[element.children[0]]
         if flag:
-            op_intervals = explain_sat_timed_historically(op_signal, intervals, element.begin, element.end)
+            op_intervals = explain_sat_timed_historically(op_signal, intervals, *self.bounds(element))
         else:
-            op_intervals = explain_unsat_timed_historically(op_signal, intervals, element.begin, element.end)
+            op_intervals = explain_unsat_timed_historically(op_signal, intervals, *self.bounds(element))
         self.explanations[element.name] = intervals
         self.visit(element.children[0], [op_intervals, flag])
 
